@@ -4,18 +4,13 @@ import "encoding/json"
 
 func jsonUnmarshal(s string, v any) error { return json.Unmarshal([]byte(s), v) }
 
-func (s *Sim) accessOnRequest(r *Req)                                    {}
-func (s *Sim) throttleOnRequest(r *Req)                                  {}
-func (s *Sim) isolationOnRequest(r *Req)                                 {}
-func (s *Sim) accessOnHandOver(c *Client, rid string, f *Frame, r *CReq) {}
-func (s *Sim) accessOnUnsubEvent(c *Client, rid string, f *Frame)        {}
-func (s *Sim) accessQuiescence()                                         {}
-func (s *Sim) throttleStep()                                             {}
-func (s *Sim) oracleResetDelivered(rec *ResetRec)                        {}
-func (s *Sim) oracleTokenDelivered(cidx int, t *TokenRec)                {}
-func (s *Sim) oracleTokenResetDelivered(tids []string, subj string)      {}
-func (s *Sim) oracleHTTPDone(h *HTTPCall)                                {}
-func (s *Sim) applyQueryEvent(op *SvcOp) bool                            { return false }
-func (s *Sim) answerQuery(r *Req, outcome string)                        {}
-func (s *Sim) execFault(d Decision) bool                                 { return false }
-func (s *Sim) finishStopped()                                            {}
+func (s *Sim) throttleOnRequest(r *Req)           {}
+func (s *Sim) throttleStep()                      {}
+func (s *Sim) oracleHTTPDone(h *HTTPCall)         {}
+func (s *Sim) applyQueryEvent(op *SvcOp) bool     { return false }
+func (s *Sim) answerQuery(r *Req, outcome string) {}
+func (s *Sim) execFault(d Decision) bool          { return false }
+func (s *Sim) finishStopped()                     {}
+
+func (s *Sim) resetDelivered(rec *ResetRec) {}
+func (s *Sim) httpCallJustified(r *Req)     {}
